@@ -64,3 +64,41 @@ PROPS["C09"] = {
     "not_proved": "",
     "assumptions": JSON_ASSUME,
 }
+
+PROPS["C08"] = {
+    "channels": [{"cmd": "run-json"}, {"cmd": "run-json-exh"}, {"cmd": "run-c10", "shards": 8}],
+    "cone": r"^MISMATCH (json|json-fuel|judge|harness|driver)",
+    "exhaustive": True,
+    "data_obligations": ["children of text/plain before json are html, svg, xml, php, js, lua, perl, python"],
+    "rule": "json: generator-produced RFC 8259 documents (all token spellings, layouts, strings starting with structural characters, escapes, non-ASCII), confirmed by encoding/json.Valid, examined whole and at every cut after the opening bracket (limit = cut): a rejection by the implementation is a C08 failure; jexh: exhaustive agreement with the model whose acceptance is proved sound (C09) and equals the grammar judge on every enumerated string; c10: whole valid objects must land in the JSON family; non-trivial = accepted by a JSON-family detector",
+    "proved": "the whole/truncated decision of jsonHelper; priority structure before json (data obligation)",
+    "not_proved": "completeness of the scanner w.r.t. RFC 8259 at every cut (mechanisation in progress): decided on the implementation by generation + exhaustive agreement",
+    "assumptions": JSON_ASSUME,
+}
+PROPS["C10"] = {
+    "channels": [{"cmd": "run-c10"}, {"cmd": "run-json", "shards": 8}],
+    "cone": r"^MISMATCH (json|json-fuel|harness|driver)",
+    "data_obligations": ["Tables.queries = Spec queries (nine RFC 7946 names, HAR and glTF deciding members)", "children of json are geojson, har, gltf in this order"],
+    "rule": "objects with 0-6 sibling members (scalars, empty and non-empty arrays, nested objects re-using type/log/asset/version, look-alike keys) x a deciding member at every position (nine geo names, three HAR members, glTF versions) / near-misses / two deciders of different families x four layouts x limits {0, len+1, right after the deciding member, right after a later member}; judged by the extracted independent member splitter subtype_spec; non-trivial = result other than plain application/json",
+    "proved": "query tables and child order realise the specification constants",
+    "not_proved": "path/query equation over the value tree (mechanisation in progress): decided on the implementation by the specification predicate",
+    "assumptions": JSON_ASSUME,
+}
+PROPS["C11"] = {
+    "channels": [{"cmd": "run-c11"}],
+    "cone": r"^MISMATCH (charset|harness|driver)",
+    "exhaustive": True,
+    "data_obligations": ["Tables.boms = Spec.spec_boms", "textChars class T below 0x80 = ASCII text characters of the specification"],
+    "rule": "every string over the 23 byte classes 61 0A 1B 7F 80 85 8F 90 9F A0 BB BF C2 DF E0 E1 ED EF F0 F4 F5 FE FF up to length 4 (quick) / 5 (thorough) through charset.FromPlain, compared with the model and judged by the extracted predicate c11_judge (Unicode Table 3-7 well-formedness, cut-off final sequence, C1 bytes); real UTF-8 / Latin / BOM texts cut at every limit through FromPlain and through Detect's charset parameter; non-trivial = a charset was reported",
+    "proved": "BOM clause; windows-1252 / iso-8859-1 split; table obligations",
+    "not_proved": "the two UTF-8 clauses (mechanisation in progress): decided exhaustively on the implementation by the specification predicate",
+    "assumptions": COMMON_ASSUME,
+}
+PROPS["C12"] = {
+    "channels": [{"cmd": "run-c12"}],
+    "cone": r"^MISMATCH (meta|harness|driver)",
+    "rule": "HTML documents (6 prologues; comments, scripts, styles, titles containing fake metas; other metas) declaring a random token-character label through <meta charset> or an http-equiv pragma in three quoting styles, any attribute order, letter case and spacing, optional UTF-8 BOM; XML prologues with both quote styles, white space (also around '='), standalone; the real token stream is dumped and fed to the prescan model; Detect's charset parameter must be the lower-cased label (utf-16* -> utf-8 for HTML meta; BOM wins); attribute-string fragments through fromMetaElement / xmlEncoding vs model",
+    "proved": "xmlEncoding, fromMetaElement (three quoting styles), the meta attribute loop and prescan, BOM precedence, lower-casing: for all labels",
+    "not_proved": "x/net/html and encoding/xml tokenizers are oracles (their token streams are inputs of the model)",
+    "assumptions": COMMON_ASSUME + ["x/net/html tokenizer and encoding/xml RawToken deliver the tokens dumped by the harness"],
+}
